@@ -293,6 +293,29 @@ impl<MutexType: RawMutex> GenericTimerService<MutexType> {
     }
 }
 
+#[cfg(futures_intrusive_verif)]
+impl<MutexType: RawMutex> GenericTimerService<MutexType> {
+    /// Reports the internal state to the external verification harness
+    pub fn verif_snapshot(&self, f: &mut dyn FnMut(crate::verif::Item<'_>)) {
+        use crate::verif::{heap_links, Entry, Item};
+        let state = self.inner.lock();
+        state.waiters.verif_for_each(&mut |node| {
+            f(Item::Entry(Entry {
+                queue: 0,
+                addr: node as *const _ as usize,
+                state: match node.state {
+                    PollState::Unregistered => 0,
+                    PollState::Registered => 1,
+                    PollState::Expired => 3,
+                },
+                waker: node.task.as_ref(),
+                num: node.expiry,
+                links: heap_links(node),
+            }))
+        });
+    }
+}
+
 impl<MutexType: RawMutex> LocalTimer for GenericTimerService<MutexType> {
     /// Returns a future that gets fulfilled after the given [`Duration`]
     fn delay(&self, delay: Duration) -> LocalTimerFuture {
